@@ -960,6 +960,16 @@ func corpusCL(cfg *config) []string {
 			" C=gopro.laptimes.start.latitude:f:" + hexStr("1.5") + ",gopro.laptimes.start.longitude:f:" + hexStr("-0.7501") +
 			",gopro.laptimes.start.bearing:f:" + hexStr("3.5") + ",gopro.laptimes.start.distance:i:" + hexStr("10") + ",gopro.laptimes.tolerance:i:" + hexStr("2") +
 			" H=~ io=ff in=" + hexStr("50.8501000,-0.7501000;50.8502000,-0.7501000"),
+		// a start line on the 180th meridian (readings either side of it are added by the second pass)
+		"cl cmd=gopro.laptimes which=explicit F=~ C=gopro.laptimes.start.latitude:f:" + hexStr("-16.8") + ",gopro.laptimes.start.longitude:f:" + hexStr("180.0") +
+			",gopro.laptimes.start.bearing:f:" + hexStr("0") + ",gopro.laptimes.start.distance:i:" + hexStr("10") + ",gopro.laptimes.tolerance:f:" + hexStr("0.5") +
+			" H=~ io=ff in=" + hexStr("-16.8000000,180.0000000;-16.8000000,-179.9999400"),
+		"cl cmd=gopro.laptimes which=explicit F=longitude:f:" + hexStr("-180") + " C=gopro.laptimes.start.latitude:f:" + hexStr("-16.8") + ",gopro.laptimes.start.longitude:f:" + hexStr("0.0") +
+			",gopro.laptimes.start.bearing:f:" + hexStr("0") + ",gopro.laptimes.start.distance:i:" + hexStr("10") + ",gopro.laptimes.tolerance:f:" + hexStr("0.5") +
+			" H=~ io=ff in=" + hexStr("-16.8000000,180.0000000;-16.8000000,179.9999400"),
+		"cl cmd=gopro.laptimes which=explicit F=~ C=gopro.laptimes.start.latitude:f:" + hexStr("-16.8") + ",gopro.laptimes.start.longitude:f:" + hexStr("179.99996") +
+			",gopro.laptimes.start.bearing:f:" + hexStr("0") + ",gopro.laptimes.start.distance:i:" + hexStr("10") + ",gopro.laptimes.tolerance:f:" + hexStr("0.5") +
+			" H=~ io=ff in=" + hexStr("-16.8000000,179.9999600;-16.8000000,-179.9999800"),
 		// and against the embedded default (no config file anywhere)
 		"cl cmd=gopro.render which=none F=distance:f:" + hexStr("25.5") + " C=~ H=~ io=ff in=-",
 		// an empty flag value beats the config file
